@@ -24,7 +24,7 @@ import (
 )
 
 type Op struct {
-	Kind    string `json:"kind"` // put putreader getbytes getfile
+	Kind    string `json:"kind"` // put putreader getbytes getfile; prefix only: dropdata (the content's output file is gone, as after a Trim)
 	ID      int    `json:"id"`
 	Content int    `json:"content,omitempty"`
 }
@@ -82,6 +82,10 @@ func genPlan(t *rapid.T, tier string) any {
 			op.Content = pickContent()
 		}
 		p.Prefix = append(p.Prefix, op)
+	}
+	if len(p.Prefix) > 0 && rapid.IntRange(0, 3).Draw(t, "dropdata") == 0 {
+		// the state a Trim leaves behind: index entries whose output file is gone
+		p.Prefix = append(p.Prefix, Op{Kind: "dropdata", Content: p.Prefix[rapid.IntRange(0, len(p.Prefix)-1).Draw(t, "dropwhich")].Content})
 	}
 	if nc >= 2 && rapid.IntRange(0, 3).Draw(t, "template") == 0 {
 		// the statement's own scenario: an id that held other content is re-stored with
@@ -202,7 +206,9 @@ func run(t *testing.T, plan any, keep bool) *simcheck.Outcome {
 		}
 	}
 	for _, op := range p.Prefix {
-		planned[op.ID][op.Content] = true
+		if op.Kind == "put" {
+			planned[op.ID][op.Content] = true
+		}
 	}
 	invoked := make([]map[int]bool, nIDs)   // Put(id, c) has been invoked
 	completed := make([]map[int]bool, nIDs) // Put(id, c) has returned nil
@@ -257,7 +263,7 @@ func run(t *testing.T, plan any, keep bool) *simcheck.Outcome {
 		id      int
 	}
 	var held []heldBytes
-	lookups, hits, missesDuring := 0, 0, 0
+	lookups, hits, missesDuring, dropped := 0, 0, 0, 0
 	type putRec struct{ id, content, start, end int }
 	type lookRec struct {
 		id, start, end, content int // content -1: miss
@@ -306,8 +312,29 @@ func run(t *testing.T, plan any, keep bool) *simcheck.Outcome {
 				caches[tp.Proc] = c
 			}
 		}
+		last := map[int]int{}
 		for _, op := range p.Prefix {
 			st := s.Steps()
+			if op.Kind == "dropdata" {
+				os.Remove(cachekit.DataPath(dir, outIDs[op.Content]))
+				dropped++
+				// ids whose entry names that output are legitimately unreadable until a later Put
+				// restores it: none of their earlier Puts counts as completed any more
+				for id, c := range last {
+					if c == op.Content {
+						completed[id] = map[int]bool{}
+						kept := puts[:0]
+						for _, pr := range puts {
+							if pr.id != id {
+								kept = append(kept, pr)
+							}
+						}
+						puts = kept
+					}
+				}
+				continue
+			}
+			last[op.ID] = op.Content
 			invoked[op.ID][op.Content] = true
 			if err := caches[1].PutBytes(cachekit.ActionID(op.ID), contents[op.Content]); err != nil {
 				out.Violate("put-error", "prefix Put failed: %v", err)
@@ -480,6 +507,7 @@ func run(t *testing.T, plan any, keep bool) *simcheck.Outcome {
 		out.Inconclusive = "step cap: " + rep.DescribeBlocked()
 	}
 	out.Nontrivial = rep.Switches > len(p.Tasks)+1
+	out.Count("shape_output_trimmed_away", int64(dropped))
 	out.Count("lookups", int64(lookups))
 	out.Count("lookup_hits", int64(hits))
 	out.Count("lookup_misses", int64(missesDuring))
@@ -501,7 +529,7 @@ var harness = &simcheck.Harness{
 	Property: "C11",
 	Level:    "exploration",
 	Rule: "rapid draws 2-3 simulated processes x 1-2 goroutines x 1-4(5) operations (Put via PutBytes or a chunking reader, GetBytes, GetFile) over 3 ids and up to 4 contents " +
-		"(sizes 0..40000; per id either every writer stores the same content or contents differ; a quarter of the plans instantiate the statement's own scenario: an id holding other content is re-stored identically by two processes while a third looks it up), torn page-granular transfers on/off, read and copy chunk sizes, and a schedule; " +
+		"(sizes 0..40000; per id either every writer stores the same content or contents differ; a quarter of the plans instantiate the statement's own scenario: an id holding other content is re-stored identically by two processes while a third looks it up), optionally an output file that went missing before the concurrent phase (the state a Trim leaves), torn page-granular transfers on/off, read and copy chunk sizes, and a schedule; " +
 		"non-trivial = more context switches than task starts; distinct by decision-trace hash",
 	Gen:     genPlan,
 	NewPlan: func() any { return &Plan{} },
